@@ -165,6 +165,8 @@ def run_case(case):
         viol.append({"clause": "hang", "subject": f"deadlock@{_verb_at_cut(obs, 's0')}", "detail": f"simulation deadlocked in phase {obs.phase}"})
     elif obs.outcome == "budget":
         pass
+    elif common.frozen_violation(world):
+        viol.append(common.frozen_violation(world))
     elif obs.outcome != "ok":
         raise common.HarnessError(f"scenario failed: {obs.outcome}: {obs.error!r}")
     for e in world.loop.exc_log:
